@@ -48,6 +48,7 @@ try:
     import numpy as _np
 except Exception:  # pragma: no cover
     _np = None
+import array as _array
 
 
 # ------------------------------------------------------------------------------------------------ adapter record
@@ -171,7 +172,8 @@ def canon(x, _path=(), _depth=0):
     if x is None or isinstance(x, (bool, str)):
         return x
     if isinstance(x, enum.Enum):
-        return f"{type(x).__name__}.{x.name}"
+        v = x.value  # the value belongs to the canonical form: a member whose _value_ was overwritten is another answer
+        return f"{type(x).__name__}.{x.name}" + (f"={v}" if isinstance(v, (int, str, bool)) else "")
     if isinstance(x, int):
         return x if abs(x) < (1 << 62) else str(x)
     if isinstance(x, float):
@@ -184,6 +186,8 @@ def canon(x, _path=(), _depth=0):
         return "x:" + bytes(x).hex()
     if isinstance(x, memoryview):
         return "x:" + x.tobytes().hex()
+    if isinstance(x, _array.array):
+        return {"array": x.tolist(), "typecode": x.typecode}
     if _np is not None and isinstance(x, _np.ndarray):
         return {"np": x.tolist(), "shape": list(x.shape)}
     if _np is not None and isinstance(x, _np.generic):
@@ -268,7 +272,7 @@ def short(c, n=160):
 def _mutable_leaf(x):
     if bitarray is not None and isinstance(x, bitarray):
         return not (frozenbitarray is not None and isinstance(x, frozenbitarray))
-    if isinstance(x, (bytearray, list, dict, set)):
+    if isinstance(x, (bytearray, list, dict, set, _array.array)):
         return True
     if _np is not None and isinstance(x, _np.ndarray):
         return True
@@ -361,14 +365,14 @@ def node_mutators(x, ep=None, all_of_them=False):
             ms.append(("clear", mk(lambda: x.clear())))
             ms.append(("setall-complement", mk(lambda: x.invert())))
         ms.append(("extend", mk(lambda: x.extend([1, 0, 1]))))
-    elif isinstance(x, (bytearray, list)):
+    elif isinstance(x, (bytearray, list, _array.array)):
         def mk(fn):
             def apply():
                 saved = list(x)
                 fn()
 
                 def undo():
-                    x[:] = type(x)(saved)
+                    x[:] = _array.array(x.typecode, saved) if isinstance(x, _array.array) else type(x)(saved)
                 return undo
             return apply
 
@@ -380,7 +384,7 @@ def node_mutators(x, ep=None, all_of_them=False):
         if len(x):
             ms.append(("edit-[0]", mk(tweak0)))
             ms.append(("del-first", mk(lambda: x.__delitem__(0))))
-            ms.append(("clear", mk(lambda: x.__delitem__(slice(None)))))
+            ms.append(("clear", mk(lambda: x.__delitem__(slice(None, None)))))
             if len(x) > 1:
                 ms.append(("reverse", mk(lambda: x.reverse())))
         ms.append(("append", mk(lambda: x.append(x[-1] if len(x) else 1))))
@@ -606,7 +610,10 @@ def _apply_bad(args, pos, bad):
     if isinstance(bad, tuple) and len(bad) >= 2 and bad[0] in ("__setattr__", "__delattr__", "__setpath__"):
         try:
             if bad[0] == "__setpath__":
-                setattr(_walk(a[pos], bad[1][:-1]), bad[1][-1], bad[2])
+                owner = _walk(a[pos], bad[1][:-1])
+                if id(owner) in reviewed_ids():
+                    return None  # an object the library shares by (reviewed) design (a default argument object): not written to
+                setattr(owner, bad[1][-1], bad[2])
             elif bad[0] == "__setattr__":
                 setattr(a[pos], bad[1], bad[2])
             else:
@@ -763,6 +770,9 @@ def _copy_into(dst, src):
     if isinstance(dst, bytearray) and isinstance(src, (bytes, bytearray)):
         dst[:] = src
         return True
+    if isinstance(dst, _array.array) and isinstance(src, _array.array) and dst.typecode == src.typecode:
+        dst[:] = src
+        return True
     if isinstance(dst, list) and isinstance(src, (list, tuple)):
         dst[:] = list(src)
         return True
@@ -819,7 +829,11 @@ def probe_same_object(eps, p):
     b = ep.args(d2)
     if len(b) != len(a):
         return "n/a"
-    rb = ep.ans(ep.args(d2))  # the reference is taken BEFORE the history (a memo that aliases `a` would answer it wrongly afterwards)
+    fresh_b = list(ep.args(d2))
+    for i, x in enumerate(a):
+        if i < len(fresh_b) and type(x) is not type(fresh_b[i]) and _promote(fresh_b[i]) is not None and type(_promote(fresh_b[i])) is type(x):
+            fresh_b[i] = _promote(fresh_b[i])  # the reference gets the same argument TYPES (a parser may keep slices of what it is given)
+    rb = ep.ans(tuple(fresh_b))  # the reference is taken BEFORE the history (a memo that aliases `a` would answer it wrongly afterwards)
     steps.append(f"rb = {ep.name}(fresh args#{d2}) = {short(rb, 80)}")
     r0 = ep.ans(tuple(a))
     steps.append(f"a = args#{d}; r0 = {ep.name}(*a) = {short(r0, 80)}")
@@ -841,7 +855,11 @@ def probe_same_object(eps, p):
         return {"what": f"{ep.name}: called again with the SAME argument objects after their content was replaced in place, it does not answer like a call with fresh objects of that content"
                         + (" (it repeats the answer for the old content)" if r1 == r0 else ""),
                 "expected": rb, "actual": r1, "steps": steps}
-    rb2 = ep.ans(ep.args(d2))
+    again = list(ep.args(d2))
+    for i, x in enumerate(fresh_b):
+        if type(x) is not type(again[i]) and _promote(again[i]) is not None:
+            again[i] = _promote(again[i])
+    rb2 = ep.ans(tuple(again))
     if rb2 != rb:
         return {"what": f"{ep.name}: after a call whose argument objects were then edited in place by the caller, a request with fresh objects is answered differently from before",
                 "expected": rb, "actual": rb2, "steps": steps + [f"rb2 = {ep.name}(fresh args#{d2})"]}
@@ -857,6 +875,13 @@ def probe_argument_kept(eps, p):
     r = ep.run(a)
     after = canon(a)
     if after != before:
+        # reviewed reading (DESIGN 5 C19): a documented in-place repair may change its argument iff it RETURNS that buffer
+        outs = [r] + (list(r) if isinstance(r, (tuple, list)) else [])
+        b4 = before if isinstance(before, list) else [before]
+        af = after if isinstance(after, list) else [after]
+        changed = [x for x, c0, c1 in zip(a, b4, af) if c0 != c1]
+        if changed and all(any(x is y for y in outs) for x in changed):
+            return "in-place-repair-returns-its-buffer"
         return {"what": f"{ep.name}: the caller's arguments are changed by the call",
                 "expected": before, "actual": after, "steps": [f"a = args#{p['draw']}", f"{ep.name}(*a) -> {short(ep.can(r), 60)}", "a compared with its value before the call"]}
     return None
@@ -984,6 +1009,8 @@ def probe_twin(eps, p, enumerate_only=False):
             return "n/a"
         for x in (o, t):
             owner = _walk(x, path[:-1])
+            if id(owner) in reviewed_ids():
+                return "reviewed"  # an object the library shares by (reviewed) design, e.g. a default argument object: not written to
             if p["mode"] == "inplace":
                 target = getattr(owner, path[-1])
                 if id(target) in reviewed_ids():
@@ -1050,6 +1077,8 @@ def probe_rebuilt(eps, p, enumerate_only=False):
         nv = _other_value(v, dv, salt=p.get("salt", 0))
         if nv is None:
             return "n/a"
+        if id(_walk(a[i], path[:-1])) in reviewed_ids():
+            return "reviewed"
         setattr(_walk(a[i], path[:-1]), path[-1], nv)
     except Exception:  # noqa
         return "n/a"
@@ -1064,6 +1093,59 @@ def probe_rebuilt(eps, p, enumerate_only=False):
                 "expected": s2, "actual": s1,
                 "steps": [f"a = args#{d}; o = {ep.name}(*a); s0 = serialise(o) = {short(s0, 70)}", f"a[{i}]{_pathstr(path)} = {short(canon(nv), 50)} (was {short(canon(v), 50)}); o refers to a[{i}]",
                           f"s1 = serialise(o); o2 = {ep.name}(*a); s2 = serialise(o2)"]}
+    return None
+
+
+_ARG_ALIASES = None
+
+
+def reviewed_argument_aliases():
+    """{"module:Class": [attribute path, ...]} of the reviewed entries `with: argument` (the constructor keeps the caller's object as is)"""
+    global _ARG_ALIASES
+    if _ARG_ALIASES is None:
+        _ARG_ALIASES = {}
+        try:
+            for e in json.load(open(ALIASES_FILE)).get("reviewed", []):
+                if e.get("with") == "argument" and e.get("via") == "ctor" and "[" not in e.get("path", ""):
+                    _ARG_ALIASES.setdefault(e["cls"], []).append(e["path"])
+        except Exception:  # noqa
+            pass
+    return _ARG_ALIASES
+
+
+def probe_alias_kept(eps, p):
+    """P10.  The reviewed alias list says that a constructor keeps an argument object as it is (the caller may fill / edit it afterwards and
+    the built object follows: HSTRP options, wrapped payloads, address bitarrays).  That is observable behaviour of the unchanged tree, so
+    it is an expectation: the attribute IS one of the caller's argument objects of that type - for every draw, also for empty / falsy ones."""
+    ep = eps[p["ep"]]
+    a = ep.args(p["draw"])
+    o = ep.run(a)
+    if isinstance(o, _Raised) or _fields(o) is None:
+        return "n/a"
+    cls = f"{type(o).__module__.replace('okdmr.dmrlib.', '', 1)}:{type(o).__name__}"
+    paths = reviewed_argument_aliases().get(cls)
+    if not paths:
+        return "n/a"
+    for path in paths:
+        try:
+            attr = _walk(o, tuple(path.strip(".").split(".")))
+        except Exception:  # noqa
+            continue
+        if attr is None or not (_is_lib_obj(attr) or _mutable_leaf(attr)):
+            continue
+        flat = []
+        for x in a:
+            flat.append(x)
+            if isinstance(x, dict):
+                flat += list(x.values())
+            elif isinstance(x, (list, tuple)):
+                flat += list(x)
+        # the expectation applies when the caller handed in an object of that type with the content the attribute now has
+        cands = [x for x in flat if type(x) is type(attr) and canon(x) == canon(attr)]
+        if cands and not any(x is attr for x in cands):
+            return {"what": f"{ep.name}: the built object does not keep the caller's argument object at {path} (the reviewed alias list records that this constructor keeps it as it is: what the caller adds to / edits in that object afterwards must show in the built object)",
+                    "expected": f"o{path} is the caller's {type(attr).__name__} object", "actual": f"another {type(attr).__name__} object of equal content",
+                    "steps": [f"a = args#{p['draw']}; o = {ep.name}(*a)", f"o{path} compared by identity with the arguments of its type"]}
     return None
 
 
@@ -1126,6 +1208,7 @@ PROBES = {
     "parse-sharing": probe_result_edit,
     "twin": probe_twin,
     "rebuilt": probe_rebuilt,
+    "alias-kept": probe_alias_kept,
     "failed-call": probe_failed_call,
 }
 
@@ -1227,6 +1310,36 @@ def _applicable(ep, probe):
     return True
 
 
+def _changed_files():
+    """library source files whose function hashes differ from the committed baseline (harness/drift.py); [] when unknown"""
+    try:
+        import drift
+        base = json.load(open(drift.BASE))
+        base = {k: v for k, v in base.items() if not k.startswith("__")}
+        cur = {f: h for f, h in drift.snapshot(["okdmr/dmrlib"]).items() if "/tests/" not in f}
+        return sorted(f for f in set(base) | set(cur) if base.get(f) != cur.get(f))
+    except Exception:  # noqa
+        return []
+
+
+def _touches(ep, draw, files):
+    """does one call of the entry point (arguments made, call, canonical form) execute code of one of these source files?"""
+    seen = set()
+
+    def prof(frame, event, arg):
+        if event == "call":
+            seen.add(frame.f_code.co_filename)
+    old = sys.getprofile()
+    sys.setprofile(prof)
+    try:
+        ep.can(ep.run(ep.args(draw)))
+    except Exception:  # noqa
+        pass
+    finally:
+        sys.setprofile(old)
+    return any(f.replace(os.sep, "/").endswith(d) for f in seen for d in files)
+
+
 class _Guard:
     def __init__(self, seconds):
         self.t_end = time.time() + seconds
@@ -1252,6 +1365,18 @@ def run(ctx, entry_points, module=None, draws=None, seconds=None, pristine=True,
     order = sorted(eps)
     rot = base % len(order)
     order = order[rot:] + order[:rot]
+    drifted = [str(x).split("::")[0] for x in (getattr(ctx, "drift", None) or [])]
+    if not drifted and len(order) > (max_eps or 0):
+        # more entry points than one quick run takes and no drift inside the property's own anchors: a changed file ANYWHERE in
+        # the library still decides which entry points are taken first (auxiliary only, DESIGN 2.3)
+        drifted = _changed_files()
+    if drifted and len(order) > 6:
+        # sources differ from the baseline: the entry points that EXECUTE a changed file go first (one profiled call each)
+        hit = [n for n in order if _touches(eps[n], base, drifted)]
+        if hit:
+            ctx.count("hist:entry-points-that-execute-changed-files", len(hit))
+            order = hit + [n for n in order if n not in hit]
+            max_eps = max(max_eps or 0, min(len(hit), 40))
     if max_eps and len(order) > max_eps and not thorough and ctx.boost == 1:
         # many entry points: a seed-rotated share in quick on a tree equal to the baseline (all of them in thorough / boosted / drifted runs)
         ctx.count("hist:entry-points-not-taken-this-seed", len(order) - max_eps)
@@ -1315,6 +1440,8 @@ def run(ctx, entry_points, module=None, draws=None, seconds=None, pristine=True,
             if _applicable(ep, "argument-kept"):
                 one("argument-kept", ep, {"ep": name, "draw": d})
                 one("argument-kept", ep, {"ep": name, "draw": d, "promote": True})
+            if ep.kind == "build" and _applicable(ep, "alias-kept"):
+                one("alias-kept", ep, {"ep": name, "draw": d})
             if _applicable(ep, "same-object"):
                 for d2 in (d + 1, d + 7):
                     one("same-object", ep, {"ep": name, "draw": d, "draw2": d2})
@@ -1515,18 +1642,19 @@ def _interleave(ctx, eps, module, base, nd, groups, guard, report):
             fams = {}
             for it in items:
                 fams.setdefault((it.get("as") or it["ep"], it["draw"]), []).append(it)
-            per_fam = max(6, (lim * 3 // 4) // max(1, len(fams)))
+            per_fam = max(9, (lim * 3 // 4) // max(1, len(fams)))
             done = 0
             for fam in fams.values():
                 b0 = fam[0]
                 mods = [x for x in fam[1:] if ismod(x)]
                 first = [(x, y) for x in mods for y in mods if x is not y]
                 rng.shuffle(first)
-                around = [(b0, x) for x in fam[1:]] + [(x, b0) for x in fam[1:]]
-                rng.shuffle(around)
-                rest_f = [(x, y) for x in fam[1:] for y in fam[1:] if x is not y and not (ismod(x) and ismod(y))]
+                # [b0, x, b0] for every variant x (module-made first): x after another call, b0 after x, both kept meanwhile -
+                # any one-shot / first-call state and any key that cannot tell b0 from x shows here at linear cost
+                fwd = [(b0, x) for x in fam[1:]]
+                rest_f = [(x, y) for x in fam[1:] for y in fam[1:] if x is not y and not (ismod(x) and ismod(y))] + [(x, b0) for x in fam[1:]]
                 rng.shuffle(rest_f)
-                todo = first[: per_fam // 2] + around[: max(2, per_fam // 3)]
+                todo = fwd[: max(4, per_fam * 2 // 3)] + first[: per_fam // 3]
                 todo += rest_f[: max(0, per_fam - len(todo))]
                 for x, y in todo[:per_fam]:
                     if not guard.ok():
@@ -1610,6 +1738,12 @@ def _main(argv):
         ctx.boost = int(argv[argv.index("--boost") + 1])
     mod = importlib.import_module(f"props.{prop.lower()}")
     ctx.matchers = getattr(mod, "MATCHERS", {}) or {}
+    if "--drift" in argv:  # as check.py does: anchored functions that differ from the baseline -> budget x4, changed files first
+        import drift
+        ctx.drift = drift.drift(prop, getattr(mod, "ANCHORS", ()))
+        if ctx.drift:
+            ctx.boost = max(ctx.boost, 4)
+        print("  drift:", ctx.drift[:6])
     t = time.time()
     me.run(ctx, mod.ENTRY_POINTS)
     dt = time.time() - t
